@@ -5,7 +5,7 @@ from ..vlib import Report, Inconclusive
 
 PROPS = ["C02"]
 DRIVER = "oauth"
-UNIT = 6.0          # seconds per Tick of the model: validity 5 s, skew 5 s, nonce kept 10 s => every comparison has >= 1.5 s margin (driver: rtOffset)
+UNIT = 6.0          # seconds per Tick of the model: validity 5 s, skew 5 s, nonce kept 15 s => every comparison has >= 1.5 s margin (driver: rtOffset)
 TOKEN_TTL = 2       # Age units per token lifetime (must equal TokenTTL of the cfgs)
 
 # standard members of an RFC 7662 answer (+ cnf); the members the node really answers with are discovered at run time
@@ -140,7 +140,9 @@ def concretise(beh, rnd, family, idx, force=None):
 
 
 def interesting_window(b):
-    return any(s["a"] == "S2SReplay" and s.get("res") == "issued" for s in b)
+    # a replay that is answered with a token, or one that only the remembered nonce stops, in the last tick of its retention
+    # (the behaviours on which a retention shorter than the acceptance span of the presentation shows: C02-replaywindow)
+    return any(s["a"] == "S2SReplay" and (s.get("res") == "issued" or s.get("edge")) for s in b)
 
 
 def pick(behaviours, n, rnd, must=None):
